@@ -601,12 +601,20 @@ fn run_smart_ptr(ctx: &mut Ctx) {
         // shared contexts: a list of Rc / Arc handles with aliasing, one SerializationContext, one DeserializationContext
         ctx.case("sptr/shared_ctx", "rc_arc", idx, |c| { let n = 1 + c.rng.usize_below(5); let objs: Vec<Rc<String>> = (0..n).map(|_| Arb::arb(&mut c.rng, 2)).collect(); let m = 1 + c.rng.usize_below(10); let picks: Vec<usize> = (0..m).map(|_| c.rng.usize_below(n)).collect(); let detect = c.rng.bool();
             c.input_str("objects", &show(&objs)); c.input_str("handles", &format!("{picks:?} detect={detect}")); c.set_nontrivial(true);
-            let mut sc = if detect { SerializationContext::new() } else { SerializationContext::without_cycle_detection() }; let mut o = VecDataOutput::new(); let mut lens = vec![];
+            // both contexts are reusable objects: after clear() a context must behave like a new one (the same live objects are
+            // serialised again into a new, self-contained stream; a stale pointer table would emit dangling back-references)
+            let rounds = 1 + c.rng.usize_below(3); c.input_str("rounds", &rounds.to_string());
+            let mut sc = if detect { SerializationContext::new() } else { SerializationContext::without_cycle_detection() }; let mut dc: DeserializationContext<Rc<String>> = DeserializationContext::new();
+            for round in 0..rounds {
+            let picks: Vec<usize> = if round == 0 { picks.clone() } else { let m2 = 1 + c.rng.usize_below(10); (0..m2).map(|_| c.rng.usize_below(n)).collect() }; let m = picks.len();
+            if round > 0 { sc.clear(); if c.rng.bool() { dc.clear(); } else { dc = DeserializationContext::new(); } c.note("context_reused_after_clear", 1); }
+            let mut o = VecDataOutput::new(); let mut lens = vec![];
             for &p in &picks { zok!("serialize_with_context", objs[p].serialize_with_context(&mut o, &mut sc)); lens.push(o.len()); }
-            zok!("write_bytes", o.write_bytes(&SENT)); let buf = o.into_vec(); let mut i = SliceDataInput::new(&buf); let mut dc: DeserializationContext<Rc<String>> = DeserializationContext::new(); let mut out: Vec<Rc<String>> = vec![];
-            for (k, &p) in picks.iter().enumerate() { let d = match <Rc<String> as SmartPtrSerialize<String>>::deserialize_with_context(&mut i, &mut dc) { Ok(d) => d, Err(e) => return Err(bad("decode_err", format!("handle {k} (object {p}): {e}"))) };
-                ensure!(*d == *objs[p], "roundtrip_mismatch", "handle {k} (object {p}) decoded {:?} want {:?}", show(&*d), show(&*objs[p])); ensure!(i.pos() == lens[k], "consumed_len", "after handle {k} reader at {} want {}", i.pos(), lens[k]); out.push(d); c.ev(2); }
+            zok!("write_bytes", o.write_bytes(&SENT)); let buf = o.into_vec(); let mut i = SliceDataInput::new(&buf); let mut out: Vec<Rc<String>> = vec![];
+            for (k, &p) in picks.iter().enumerate() { let d = match <Rc<String> as SmartPtrSerialize<String>>::deserialize_with_context(&mut i, &mut dc) { Ok(d) => d, Err(e) => return Err(bad("decode_err", format!("round {round} handle {k} (object {p}): {e}"))) };
+                ensure!(*d == *objs[p], "roundtrip_mismatch", "round {round} handle {k} (object {p}) decoded {:?} want {:?}", show(&*d), show(&*objs[p])); ensure!(i.pos() == lens[k], "consumed_len", "round {round}: after handle {k} reader at {} want {}", i.pos(), lens[k]); out.push(d); c.ev(2); }
             if detect { let mut kept = 0; for x in 0..m { for y in 0..x { if (picks[x] == picks[y]) == Rc::ptr_eq(&out[x], &out[y]) { kept += 1; } } } c.note("alias_pairs_preserved", kept as u64); }
+            }
             // Arc variant through SmartPtrSerializer presets
             let av: Arc<Vec<u32>> = Arb::arb(&mut c.rng, 3);
             for cfg in [SmartPtrConfig::new(), SmartPtrConfig::performance_optimized(), SmartPtrConfig::space_optimized(), SmartPtrConfig::robust()] { let s = SmartPtrSerializer::new(cfg); let e = zok!("serialize_to_bytes", s.serialize_to_bytes::<Vec<u32>, Arc<Vec<u32>>>(&av)); let d: Arc<Vec<u32>> = zok!("deserialize_from_bytes", s.deserialize_from_bytes::<Vec<u32>, Arc<Vec<u32>>>(&e)); ensure!(*d == *av, "roundtrip_mismatch", "SmartPtrSerializer Arc<Vec<u32>>"); c.ev(1); }
